@@ -56,6 +56,17 @@ Theorem C06_routing_injective :
 Proof. exact routing_injective_lemma. Qed.
 Print Assumptions C06_routing_injective.
 
+(* No phantom pipelines: every pipeline that exists was created for the key values of a record, or of a
+   queue id found at startup that passed the arity filter. *)
+Theorem C06_routing_no_phantom :
+  forall parts n ids nsinks ops g0 g lms is,
+    orch_init parts n ids = Ok g0 ->
+    run_ops parts g0 (repeat [] nsinks) ops = Ok (g, lms, is) ->
+    forall p, In p (g_pipes g) ->
+      (exists id, In id ids /\ recover_keys n id = Some (p_keys p)) \/ (exists o, In o ops /\ p_keys p = snd o).
+Proof. exact routing_no_phantom_lemma. Qed.
+Print Assumptions C06_routing_no_phantom.
+
 (* The orchestrator is total: a template accepted by NewTagBuilder, any initial ids and any records of
    the configured arity never produce a panic (index out of range in the tag builder, slice bounds). *)
 Theorem C06_routing_total :
@@ -170,26 +181,28 @@ Proof. exact original_dir_test_wrong. Qed.
 Print Assumptions C06_original_dir_test_refuted.
 
 (* PARTIAL (same missing cases as C06_id_dir_recovery_partial, plus the 255-byte limit of directory names).
-   Restart: records are routed, every pipeline spills its records' chunks into its queue directory, the
-   process restarts (ListBufferIDs, NewOrchestrator from the listed ids).  Then every chunk lies in the
-   directory to which a recovered pipeline with exactly the writer's key tuple attaches. *)
+   Restart: records are routed (any number of sinks, any arrival order), every pipeline spills its records'
+   chunks into its queue directory, the process restarts (ListBufferIDs, NewOrchestrator from the listed ids).
+   Then every chunk lies in a directory to which a recovered pipeline with exactly the writer's key tuple (and
+   tag) attaches, and no recovered pipeline of another key tuple attaches to that directory. *)
 Theorem C06_restart_reattaches_partial :
   forall (md5hex : bytes -> bytes), (forall s, length (md5hex s) = 32%nat) ->
-  forall parts n umask recs g lms is root0 refs root g2,
-    Forall (fun ks => length ks = n /\ no_comma ks /\ pipeline_id ks <> [] /\
-                      (length (pipeline_id ks) + 9 <= NAME_MAX)%nat) recs ->
-    (forall ks ks', In ks recs -> In ks' recs -> ks <> ks' ->
-       sanitize (pipeline_id ks) = sanitize (pipeline_id ks') ->
-       tail8 (md5hex (pipeline_id ks)) <> tail8 (md5hex (pipeline_id ks'))) ->
-    run_ops parts g_init [[]] (map (fun ks => (O, ks)) recs) = Ok (g, lms, is) ->
+  forall parts n umask nsinks ops g lms is root0 refs root g2,
+    Forall (fun o => length (snd o) = n /\ no_comma (snd o) /\ pipeline_id (snd o) <> [] /\
+                     (length (pipeline_id (snd o)) + 9 <= NAME_MAX)%nat) ops ->
+    (forall o o', In o ops -> In o' ops -> snd o <> snd o' ->
+       sanitize (pipeline_id (snd o)) = sanitize (pipeline_id (snd o')) ->
+       tail8 (md5hex (pipeline_id (snd o))) <> tail8 (md5hex (pipeline_id (snd o')))) ->
+    run_ops parts g_init (repeat [] nsinks) ops = Ok (g, lms, is) ->
     make_dirs md5hex umask qroot_empty (g_pipes g) = (root0, refs) ->
     store_chunks root0 refs is O = root ->
     orch_init parts n (dedup [] (list_buffer_ids (root_entries umask root))) = Ok g2 ->
-    forall r ks, nth_error recs r = Some ks ->
+    forall r o, nth_error ops r = Some o ->
       exists d p i, In d (qr_dirs root) /\ In r (qd_chunks d) /\
-                    nth_error (g_pipes g2) i = Some p /\ p_keys p = ks /\
-                    build_tag parts ks = Ok (p_tag p) /\
-                    queue_dir_name md5hex (p_id p) = Some (qd_name d).
+                    nth_error (g_pipes g2) i = Some p /\ p_keys p = snd o /\
+                    build_tag parts (snd o) = Ok (p_tag p) /\
+                    queue_dir_name md5hex (p_id p) = Some (qd_name d) /\
+                    (forall p', In p' (g_pipes g2) -> queue_dir_name md5hex (p_id p') = Some (qd_name d) -> p_keys p' = snd o).
 Proof. exact restart_reattaches_lemma. Qed.
 Print Assumptions C06_restart_reattaches_partial.
 
